@@ -26,6 +26,7 @@ pub enum Op {
     Identity,
     Handoff,
     MapDec,
+    MapId,
     FilterPos,
     DeferTick,
     DeferTickLazy,
@@ -114,6 +115,7 @@ impl Graph {
             Op::Identity => "identity::<It>()".into(),
             Op::Handoff => "handoff()".into(),
             Op::MapDec => "map(|x: It| (x.0, x.1 - 1))".into(),
+            Op::MapId => "map(|x: It| (x.0, x.1))".into(),
             Op::FilterPos => "filter(|x: &It| x.1 > 0)".into(),
             Op::DeferTick => "defer_tick()".into(),
             Op::DeferTickLazy => "defer_tick_lazy()".into(),
@@ -344,7 +346,7 @@ impl<'a> Interp<'a> {
         let input = |s: &Self, port: usize| -> Vec<It> { s.vals[n.ins[port]].clone() };
         match &n.op {
             Op::Source(k) => std::mem::take(&mut self.inputs[*k]),
-            Op::Tee | Op::Identity | Op::Handoff => input(self, 0),
+            Op::Tee | Op::Identity | Op::Handoff | Op::MapId => input(self, 0),
             Op::Union => {
                 let mut v = vec![];
                 for p in 0..n.ins.len() {
@@ -702,6 +704,22 @@ pub fn family_c24() -> Vec<Graph> {
             let d = b.defers(0, t, &lz);
             b.add(0, Op::Sink(1), &[d]);
             out.push(b.done());
+        }
+    }
+    // A'. the same chains WITHOUT any tap: the only path is source -> [map ->] defers -> sink, so in
+    // the arrival tick no handoff carries data except the defer buffer itself (the generated
+    // tick closure's "work done" flag stays false on every tick but the first).
+    for with_map in [false, true] {
+        for k in 1..=3usize {
+            for mask in 0..(1usize << k) {
+                let lz = mask_bits(mask, k);
+                let mut b = GB::new(&format!("c24_bare{}_{}", if with_map { "_map" } else { "" }, lazy_name(&lz)), 1, 0);
+                let s = b.add(0, Op::Source(0), &[]);
+                let x = if with_map { b.add(0, Op::MapId, &[s]) } else { s };
+                let d = b.defers(0, x, &lz);
+                b.add(0, Op::Sink(1), &[d]);
+                out.push(b.done());
+            }
         }
     }
     // B. stateful operators with 'tick / 'static persistence around defers.
